@@ -10,18 +10,18 @@ import (
 
 // propSpec wires a property to its scopes and rule functions.
 type propSpec struct {
-	ID        string
-	Scope     Scope // guard-inventory scope
+	ID         string
+	Scope      Scope // guard-inventory scope
 	FrameScope Scope // transcript/sponge operation inventory scope
-	MinFrame  int
+	MinFrame   int
 	StoreScope Scope
-	MinStores int
-	SeqScope  Scope
-	MinSeq    int
-	Extra     []extraScope // further inventories (guards, conditions, calls) over dependency code named in the property's anchors
-	MinFuncs  int
-	Check     func(r *Run)
-	NeedSSA   bool
+	MinStores  int
+	SeqScope   Scope
+	MinSeq     int
+	Extra      []extraScope // further inventories (guards, conditions, calls) over dependency code named in the property's anchors
+	MinFuncs   int
+	Check      func(r *Run)
+	NeedSSA    bool
 }
 
 type extraScope struct {
